@@ -113,6 +113,32 @@ def _t1(ctx: Context) -> None:
         return
     loop = loop_frames[-1][1]
     in_loop = lambda n: any(fr[0] == "loop" and fr[1] is loop and fr[2] == "body" for fr in n.frames)  # noqa: E731
+    # the send counter is the attribute itself and advances by one per frame inside the loop - decided from the cipher call
+    # alone, whatever form the framing loop has (the accessory's counter advances once per frame it receives)
+    head = [n for n in cfg.nodes if n.kind in ("loop_head", "for") and n.ast is loop][0]
+    en = enc_nodes[0]
+    ecalls = [c for c in ctx.calls(en) if isinstance(c.func, (ast.Name, ast.Attribute)) and (lambda ft: ft[0] == "attr" and ft[2] == "encrypt")(T.of(cfg, en, c.func))]
+    et = strip_sites(T.of(cfg, en, ecalls[0])) if ecalls else ("unknown", "")
+    if et[0] == "call" and len(et[2]) == 3:
+        nonce = et[2][1]
+        ctr_t = nonce[2][1] if _is_pack(nonce, "<LQ") and len(nonce[2]) == 2 else None
+        direct = ctr_t is not None and ctr_t[0] == "attr" and ctr_t[1] == ("param", "self")
+        ck.check("C05.T1", direct, "the nonce counter is the protocol's send counter attribute itself", f"{ctx.fkey(f)}:nonce-counter",
+                 f"send_bytes builds the nonce from {show(ctr_t, 80) if ctr_t else 'a non-counter value'} instead of the send counter attribute: frame counters of "
+                 "consecutive requests can overlap or skip", ctx.loc(f, en))
+        if direct:
+            incs = [m for m in cfg.nodes if in_loop(m) and m.kind == "stmt" and isinstance(m.ast, ast.AugAssign) and isinstance(m.ast.op, ast.Add)
+                    and ctx.const(f, m.ast.value, None) == 1 and strip_sites(T.of(cfg, m, m.ast.target)) == ctr_t]
+            okc = len(incs) == 1
+            if okc:
+                for e in ctx.normal_out(cfg, en):
+                    if e[1] != incs[0].id and cfg.find_path(e[1], head.id, avoid_nodes=[incs[0].id]) is not None:
+                        okc = False
+            others = [m for m in cfg.nodes if m.kind == "stmt" and isinstance(m.ast, (ast.AugAssign, ast.Assign)) and m not in incs
+                      and strip_sites(T.of(cfg, m, m.ast.target if isinstance(m.ast, ast.AugAssign) else m.ast.targets[0])) == ctr_t]
+            ck.check("C05.T1", okc and not others, "the send counter advances by exactly one per frame, inside the loop", f"{ctx.fkey(f)}:counter-per-frame",
+                     "send_bytes does not advance the send counter by exactly one per frame inside the framing loop (the accessory's counter advances once per frame)",
+                     ctx.loc(f, en))
     take = adv = None
     if isinstance(loop, ast.While):
         loops = [n for n in cfg.nodes if n.kind == "loop_head" and n.ast is loop]
@@ -206,27 +232,6 @@ def _t1(ctx: Context) -> None:
             ok_enc = aad == want_len and ctr_ok and pt == chunk_t and e[1][1][0] == "attr" and e[1][1][1] == ("param", "self")
     ck.check("C05.T1", ok_enc, "second item: encrypt(aad = the length bytes, nonce = PACK_NONCE(send counter), plaintext = the chunk)",
              f"{ctx.fkey(f)}:cipher-item", f"send_bytes: the encrypted item is {show(flat[1][1], 200) if len(flat) == 2 else 'missing'}", ctx.loc(f, flat[1][0] if len(flat) == 2 else loops[0]))
-    # the send counter is the attribute itself and advances by one per frame inside the loop
-    if len(flat) == 2 and flat[1][1][0] == "call" and len(flat[1][1][2]) == 3:
-        nonce = flat[1][1][2][1]
-        ctr_t = nonce[2][1] if _is_pack(nonce, "<LQ") and len(nonce[2]) == 2 else None
-        direct = ctr_t is not None and ctr_t[0] == "attr" and ctr_t[1] == ("param", "self")
-        ck.check("C05.T1", direct, "the nonce counter is the protocol's send counter attribute itself", f"{ctx.fkey(f)}:nonce-counter",
-                 f"send_bytes builds the nonce from {show(ctr_t, 80) if ctr_t else 'a non-counter value'} instead of the send counter attribute: frame counters of "
-                 "consecutive requests can overlap or skip", ctx.loc(f, flat[1][0]))
-        if direct:
-            incs = [m for m in cfg.nodes if in_loop(m) and m.kind == "stmt" and isinstance(m.ast, ast.AugAssign) and isinstance(m.ast.op, ast.Add)
-                    and ctx.const(f, m.ast.value, None) == 1 and strip_sites(T.of(cfg, m, m.ast.target)) == ctr_t]
-            okc = len(incs) == 1
-            if okc:
-                for e in ctx.normal_out(cfg, flat[1][0]):
-                    if e[1] != incs[0].id and cfg.find_path(e[1], loops[0].id, avoid_nodes=[incs[0].id]) is not None:
-                        okc = False
-            others = [m for m in cfg.nodes if m.kind == "stmt" and isinstance(m.ast, (ast.AugAssign, ast.Assign)) and m not in incs
-                      and strip_sites(T.of(cfg, m, m.ast.target if isinstance(m.ast, ast.AugAssign) else m.ast.targets[0])) == ctr_t]
-            ck.check("C05.T1", okc and not others, "the send counter advances by exactly one per frame, inside the loop", f"{ctx.fkey(f)}:counter-per-frame",
-                     "send_bytes does not advance the send counter by exactly one per frame inside the framing loop (the accessory's counter advances once per frame)",
-                     ctx.loc(f, flat[1][0]))
     # order: length item before cipher item on every path
     if len(flat) == 2 and flat[0][0] is not flat[1][0]:
         p = cfg.find_path(loops[0].id, flat[1][0].id, avoid_nodes=[flat[0][0].id])
